@@ -26,16 +26,16 @@ import (
 // ---------------------------------------------------------------- items
 
 type b44Item struct {
-	v      *bval     // nil: no value at all (Go nil / `v` absent); encodes to the empty string
-	k      *[32]byte // nil: immutable (no `k`)
-	salt   []byte
-	sig    [64]byte
-	cas    int64
-	seq    int64
-	noSeq  bool   // wire only: leave `seq` out
-	emptySaltKey bool // the salt is empty but PRESENT: `4:salt0:` on the wire, a non-nil empty slice in the Go API (same item as without salt)
-	sigKey []byte // the (key, message) sig was REALLY made for; nil = made for nothing (garbage)
-	sigMsg []byte
+	v            *bval     // nil: no value at all (Go nil / `v` absent); encodes to the empty string
+	k            *[32]byte // nil: immutable (no `k`)
+	salt         []byte
+	sig          [64]byte
+	cas          int64
+	seq          int64
+	noSeq        bool   // wire only: leave `seq` out
+	emptySaltKey bool   // the salt is empty but PRESENT: `4:salt0:` on the wire, a non-nil empty slice in the Go API (same item as without salt)
+	sigKey       []byte // the (key, message) sig was REALLY made for; nil = made for nothing (garbage)
+	sigMsg       []byte
 }
 
 func (it *b44Item) bv() []byte {
